@@ -891,7 +891,17 @@ def rule_private_name_sets(check, rule):
                 return _fresh(x.left) or _fresh(x.right)      # set operators build a new set
             if isinstance(x, ast.Call) and isinstance(x.func, ast.Attribute) and x.func.attr in ('union', 'copy', 'intersection', 'difference'):
                 return True
+            if isinstance(x, ast.IfExp):
+                return _fresh(x.body) and _fresh(x.orelse)
             return False
+
+        def _hands_back(x):
+            # one of the alternatives of a conditional value is the caller's object itself
+            if isinstance(x, ast.IfExp):
+                return _hands_back(x.body) or _hands_back(x.orelse)
+            if isinstance(x, ast.BoolOp):
+                return any(_hands_back(y) for y in x.values)
+            return isinstance(x, ast.Name) and x.id in init.params()[0]
         fresh = _fresh(v)
         if fresh:
             check.holds(rule, site_of(init, assigns[-1]), 'self.%s starts as a set of its own (%s)' % (attr, norm(v)[:30]), key=key)
@@ -906,7 +916,7 @@ def rule_private_name_sets(check, rule):
                 for ret in [x for x in ast.walk(h.node) if isinstance(x, ast.Return) and x.value is not None]:
                     if isinstance(ret.value, ast.Name) and ret.value.id in hp:
                         passthrough = (h, ret)
-        if passthrough is not None or isinstance(v, ast.Name):
+        if passthrough is not None or isinstance(v, ast.Name) or _hands_back(v):
             where = passthrough[1] if passthrough else assigns[-1]
             fi_ = passthrough[0] if passthrough else init
             check.violation(rule, site_of(fi_, where), 'self.%s can be the very set object the caller passed (%s), and _merge_other later edits it in '
